@@ -25,14 +25,12 @@ Definition fan_ok (k : nat) (o : obs) : bool := list_eqb rec_hook_eqb (fanout k 
 
 Definition to_out (o : obs) : out := {| o_ok := b_ok o; o_infos := b_infos o; o_hooks := calls o |}.
 
-Definition ids_of (s : state) : list nat := map e_id s.
-
 Definition out_matches (k : nat) (m : out) (o : obs) : bool :=
   Bool.eqb (o_ok m) (b_ok o) && list_eqb einfo_eqb (o_infos m) (b_infos o) &&
   (Nat.eqb (length (fanout k (o_hooks m))) (length (b_log o))) &&
   forallb (fun i => list_eqb rec_hook_eqb (fanout k (proj i (o_hooks m)))
                              (filter (fun x => Nat.eqb (hook_id (snd x)) i) (b_log o)))
-          (ids_of (o_infos m)).
+          (ids (o_infos m)).
 
 Fixpoint outs_match (k : nat) (ms : list out) (os : list obs) : bool :=
   match ms, os with
@@ -50,8 +48,6 @@ Definition mismatch (c : case) : bool :=
 Definition wfb (now : Z) (e : einfo) : bool :=
   if e_started e then (e_start e <=? e_cur_start e) && (e_cur_start e <=? now) else (e_cur e =? 0).
 
-Definition op_time (o : op) : Z := match o with Block t _ => t | Add ct _ _ => ct end.
-
 Fixpoint times_ok (last : Z) (ops : list op) : bool :=
   match ops with
   | [] => true
@@ -61,10 +57,7 @@ Fixpoint times_ok (last : Z) (ops : list op) : bool :=
 Definition add_wfb (o : op) : bool :=
   match o with
   | Block _ _ => true
-  | Add ct ch a =>
-      if a_started a
-      then (match a_start a with Some x => x | None => ct end <=? a_cur_start a) && (a_cur_start a <=? ct)
-      else (a_cur a =? 0)
+  | Add ct ch a => wfb ct (added ct ch a)
   end.
 
 Definition first_time (ops : list op) : Z := match ops with [] => 0 | o :: _ => op_time o end.
